@@ -118,7 +118,7 @@ class Assembler:
 
                 if (number < 0) or (number > self._mpu.byteMask):
                     raise OverflowError
-                statement = before + '#$' + self._mpu.BYTE_FORMAT % number
+                target = '#$' + self._mpu.BYTE_FORMAT % number
 
             # target is the accumulator
             elif target in ('a', 'A'):
@@ -127,13 +127,17 @@ class Assembler:
             # target is an address or label
             else:
                 address = self._address_parser.number(target)
-                statement = before + '$' + self._mpu.ADDR_FORMAT % address + after
+                target = '$' + self._mpu.ADDR_FORMAT % address
 
-        # separate opcode and operand
-        splitted = statement.split(" ", 2)
-        opcode = splitted[0].strip().upper()
-        if len(splitted) > 1:
-            operand = splitted[1].strip().upper()
+            # whitespace around the delimiters is not significant
+            opcode, lead = before.split(" ", 1)
+            operand = ''.join((lead + target + after).split())
         else:
-            operand = ''
-        return (opcode, operand)
+            # separate opcode and operand
+            splitted = statement.split(" ", 1)
+            opcode = splitted[0]
+            if len(splitted) > 1:
+                operand = splitted[1]
+            else:
+                operand = ''
+        return (opcode.strip().upper(), operand.strip().upper())
